@@ -116,6 +116,29 @@ def playUci (p : Position) : List String → Option Position
 def words' (s : String) : List String := (s.splitOn " ").filter (· != "")
 def semis' (s : String) : List String := (s.splitOn ";").map (·.trimAscii.toString)
 
+def xs (x : UInt64) : UInt64 :=
+  let x := x ^^^ (x <<< (13 : UInt64))
+  let x := x ^^^ (x >>> (7 : UInt64))
+  x ^^^ (x <<< (17 : UInt64))
+
+/-- a move is "special" when it castles, captures en passant, promotes, captures or gives check -/
+def isSpecial (p : Position) (m : SMove) : Bool :=
+  isCastle p m || isEnPassant p m || m.promo.isSome || isCapture p m || inCheck (apply p m) (!p.white)
+
+/-- seeded random legal playout from `p`; special moves are preferred with probability `bias`/8 -/
+def playout : Nat → Position → UInt64 → Nat → Array String → Array String → Array String × Array String
+  | 0, _, _, _, ms, fs => (ms, fs)
+  | n + 1, p, rng, bias, ms, fs =>
+    let legal := legalMoves p
+    if legal.isEmpty || p.half >= 100 then (ms, fs) else
+    let rng := xs rng
+    let special := legal.filter (isSpecial p)
+    let pool := if !special.isEmpty && (rng >>> (40 : UInt64)).toNat % 8 < bias then special else legal
+    let rng := xs rng
+    let m := pool.getD ((rng >>> (20 : UInt64)).toNat % pool.length) default
+    let q := apply p m
+    playout n q rng bias (ms.push m.uci) (fs.push (toFen q))
+
 /-- `oracle <sub> …` requests of the model driver -/
 def oracle (rest : String) : List String :=
   let (sub, arg) := match rest.splitOn " " with
@@ -152,11 +175,29 @@ def oracle (rest : String) : List String :=
       (hexs.getD 14 0).toUInt64, t.getD 15 "" == "w", (t.getD 16 "").toNat!, (t.getD 17 "").toNat!,
       (t.getD 19 "").toNat!, (t.getD 18 "").toNat!, key⟩
     [toFen (abs g), "wf " ++ String.intercalate "," (wfViolations g)]
+  | "playout" =>
+    -- playout <fen> ; seed ; length ; bias  -> the moves and the FEN after each
+    let parts := semis' arg
+    match ofFen (parts.headD ""), (parts.getD 1 "").toNat?, (parts.getD 2 "").toNat?, (parts.getD 3 "").toNat? with
+    | some p, some seed, some n, some bias =>
+      let (ms, fs) := playout n p (seed.toUInt64 ||| 1) bias #[] #[]
+      ["moves " ++ String.intercalate " " ms.toList] ++ fs.toList
+    | _, _, _, _ => ["!none"]
   | "perft" =>
     let parts := semis' arg
     match ofFen (parts.headD ""), (parts.getD 1 "").toNat? with
     | some p, some d => [toString (perft p d)]
     | _, _ => ["!none"]
+  | "attack" =>
+    -- attack R|B|Q sq occhex : the coordinate walk
+    match words' arg with
+    | [k, sq, occ] =>
+      let o : UInt64 := (occ.toList.foldl (fun (v : Nat) c => v * 16 + (if c.isDigit then c.toNat - 48 else c.toNat - 87)) 0).toUInt64
+      let s := sq.toNat!
+      (match k with
+       | "R" => [hex16 (slideRook s o)] | "B" => [hex16 (slideBishop s o)]
+       | "Q" => [hex16 (slideRook s o ||| slideBishop s o)] | _ => ["!bad"])
+    | _ => ["!bad"]
   | "leapers" =>
     (List.range 64).map fun s =>
       s!"{s} {hex16 (pawnPattern true s)} {hex16 (pawnPattern false s)} {hex16 (knightPattern s)} {hex16 (kingPattern s)}"
